@@ -1005,7 +1005,7 @@ func main() {
 		desc := fmt.Sprintf("%d sections, palette class %s, %d entities, into a %s chunk (%d entities, spare %d)", secs, shapeCat(sh), len(src.BlockEntity), kind, len(dst.BlockEntity), cap(dst.BlockEntity)-len(dst.BlockEntity))
 		wireCase(o, "wire."+kind+"."+shapeCat(sh), src, dst, tail, true, desc)
 		// the save form of the same kind of chunk
-		if i%2 == 0 {
+		if i%2 == 0 && (secs <= 4 || i%20 == 0) { // ChunkFromSave recounts 4096 blocks per section: keep most small
 			saveCase(o, "save."+shapeCat(sh), randChunk(r, sh), r, fmt.Sprintf("%d sections, palette class %s", secs, shapeCat(sh)))
 		}
 	}
@@ -1042,7 +1042,11 @@ func main() {
 
 	// --- save form from the format definition
 	for i := 0; i < o.N(40, 6); i++ {
-		synthSave(o, r, r.Pick(1, 2, 4, 8, 24))
+		secs := r.Pick(1, 1, 2, 3, 5)
+		if i == 3 {
+			secs = 24
+		}
+		synthSave(o, r, secs)
 	}
 	// malformed save chunks: correspondence only
 	for i := 0; i < o.N(30, 4); i++ {
